@@ -13,9 +13,10 @@
     Not proved (checked on every run by the oracle of Cplx/ComplexitySpec.v only): the bounds
     [cycle_steps_bound] for the fragment cycle search (Cplx/FragmentWalkCount.v, cycle_search_run)
     and [var_steps_bound] for the variable walk (var_walk_run); full statements:
-      forall D, match cycle_search_run D with Some w => w_steps w <= cycle_steps_bound D + n_frags D | None => False end
+      forall D, match cycle_search_run D with Some w => w_steps w <= cycle_steps_bound D | None => False end
       forall D, match var_walk_run D with Some k => k <= var_steps_bound D | None => False end
-    and a polynomial bound for the cost walk on documents whose fragments contain no spreads. *)
+    (intended statements, NOT proved), and a polynomial bound for the cost walk on documents whose
+    fragment definitions contain no spreads (the complement of the known finding). *)
 From Coq Require Import List ZArith Bool.
 From ApiFu Require Import Cplx.Tables Cplx.ParserDepthModel Cplx.MergeCountModel Cplx.CostWalkCount
      Cplx.ComplexityDecode Cplx.ComplexitySpec Cplx.ParserDepthProofs Cplx.CostWalkProofs Cplx.MergeFamily
